@@ -365,15 +365,51 @@ type PredDef struct {
 }
 
 type LemmaDef struct {
-	Name  string
-	Pkg   string
-	Body  *SNode
-	Props []string
+	Name   string
+	Pkg    string
+	Params []FunParam
+	Induct string // induction variable ("" = direct proof)
+	For    string // trigger function: instances are assumed wherever FOR(args) is evaluated
+	Body   *SNode
+	Src    string
+	Props  []string
+	Line   int
+}
+
+type FunParam struct {
+	Name string
+	Type string
+}
+
+// FunDef: a (possibly recursive) pure spec function over the heap.
+type FunDef struct {
+	Name   string
+	Pkg    string
+	Params []FunParam
+	Result string // "int" | "bool"
+	Body   *SNode
+	Src    string
+}
+
+func parseFunParams(s string) []FunParam {
+	var out []FunParam
+	for _, p := range splitTop(s, ',') {
+		fs := strings.Fields(p)
+		if len(fs) == 0 {
+			continue
+		}
+		fp := FunParam{Name: fs[0], Type: "int"}
+		if len(fs) > 1 {
+			fp.Type = strings.Join(fs[1:], "")
+		}
+		out = append(out, fp)
+	}
+	return out
 }
 
 var modsets = map[string]string{}
 
-var clauseKW = map[string]bool{"modset": true, "pred": true, "func": true, "lemma": true, "props": true, "requires": true,
+var clauseKW = map[string]bool{"fun": true, "modset": true, "pred": true, "func": true, "lemma": true, "props": true, "requires": true,
 	"modifies": true, "allocs": true, "ensures": true, "loop": true, "inline": true, "trusted": true, "assert": true, "case": true}
 
 func (P *Program) loadContracts() error {
@@ -486,14 +522,59 @@ func (P *Program) loadContractFile(pkg, file string) error {
 			pd := &PredDef{Name: name, Pkg: pkg, Params: params, Body: n, Src: body}
 			P.Preds[pkg+"."+name] = pd
 			cur = nil
-		case "lemma":
-			k := strings.Index(rc.text, ":")
-			name := strings.TrimSpace(rc.text[:k])
-			n, err := parseSpec(strings.TrimSpace(rc.text[k+1:]))
+		case "fun":
+			// NAME(a T, b int) int = body
+			k := strings.Index(rc.text, " = ")
+			if k < 0 {
+				return fmt.Errorf("%s:%d: fun needs ' = '", file, rc.line)
+			}
+			head := strings.TrimSpace(rc.text[:k])
+			body := strings.TrimSpace(rc.text[k+3:])
+			op := strings.Index(head, "(")
+			cl := strings.LastIndex(head, ")")
+			fd := &FunDef{Name: strings.TrimSpace(head[:op]), Pkg: pkg, Params: parseFunParams(head[op+1 : cl]), Result: strings.TrimSpace(head[cl+1:]), Src: body}
+			if fd.Result == "" {
+				fd.Result = "int"
+			}
+			n, err := parseSpec(body)
 			if err != nil {
 				return fmt.Errorf("%s:%d: %v", file, rc.line, err)
 			}
-			P.Lemmas = append(P.Lemmas, &LemmaDef{Name: name, Pkg: pkg, Body: n})
+			fd.Body = n
+			P.Funs[pkg+"."+fd.Name] = fd
+			cur = nil
+		case "lemma":
+			// NAME(a T, k int) [for FUN] [induction k] [props Cxx Cyy] : body
+			k := strings.Index(rc.text, ":")
+			for k >= 0 && k+1 < len(rc.text) && rc.text[k+1] == ':' {
+				k2 := strings.Index(rc.text[k+2:], ":")
+				k = k + 2 + k2
+			}
+			head := strings.TrimSpace(rc.text[:k])
+			body := strings.TrimSpace(rc.text[k+1:])
+			op := strings.Index(head, "(")
+			cl := strings.Index(head, ")")
+			ld := &LemmaDef{Name: strings.TrimSpace(head[:op]), Pkg: pkg, Params: parseFunParams(head[op+1 : cl]), Src: body, Line: rc.line}
+			fs := strings.Fields(head[cl+1:])
+			for i := 0; i < len(fs); i++ {
+				switch fs[i] {
+				case "for":
+					ld.For = fs[i+1]
+					i++
+				case "induction":
+					ld.Induct = fs[i+1]
+					i++
+				case "props":
+					ld.Props = append(ld.Props, fs[i+1:]...)
+					i = len(fs)
+				}
+			}
+			n, err := parseSpec(body)
+			if err != nil {
+				return fmt.Errorf("%s:%d: %v", file, rc.line, err)
+			}
+			ld.Body = n
+			P.Lemmas = append(P.Lemmas, ld)
 			cur = nil
 		case "func":
 			// (*player).pay(p, chips, isWager) (err)
